@@ -13,6 +13,8 @@ import json
 import math
 import random as pyrandom
 
+from fractions import Fraction
+
 import numpy as np
 
 import common as C
@@ -116,6 +118,10 @@ def main(tier: str) -> int:
                 runs.append((cn, cfg))
     for j, (fmin, fmax) in enumerate(((0.5, 0.4), (0.2, 0.1), (0.1, 0.9))):
         runs.append(("jDE", dict(pop_size=8, iters=12, objective="sphere", seed=chk.seed * 100 + 70 + j, keep_history=True, F_min=fmin, F_max=fmax, t_F=0.6, t_CR=0.6)))
+    # objectives in very small units (improvements far below numpy.isclose's absolute tolerance)
+    for j, mn in enumerate((True, False)):
+        runs.append(("SHADE", dict(pop_size=8, iters=14, objective="tiny", minimization=mn, seed=chk.seed * 100 + 80 + j, keep_history=True)))
+        runs.append(("jDE", dict(pop_size=8, iters=10, objective="tiny", minimization=mn, seed=chk.seed * 100 + 84 + j, keep_history=True)))
     # the replay input of finding F9 stays in the corpus
     runs.insert(0, ("SHAGA", dict(pop_size=3, iters=25, objective="onemax", str_len=30, seed=2, elitism=True, keep_history=True)))
     for cn, cfg in runs:
@@ -173,6 +179,19 @@ def main(tier: str) -> int:
                     chk.fail("without successes the written cell is not a copy of the preceding cell", {**dd, "memory": hk}, {"optimizer": cn, "clause": "copy"})
                 if any(np.isnan(x) for x in list(S) + [u]):
                     continue
+                # S4: the documented SHADE rules recomputed exactly (Lehmer mean of the successful F; improvement-weighted
+                # arithmetic mean of the successful CR)
+                if cn == "SHADE" and len(S):
+                    Sf = [Fraction(float(v)) for v in S]
+                    dff = [Fraction(float(v)) for v in df]
+                    if hk == "_H_F":
+                        want = sum(v * v for v in Sf) / sum(Sf) if sum(Sf) != 0 else Fraction(0)
+                    else:
+                        want = sum(w * v for w, v in zip(dff, Sf)) / sum(dff) if sum(dff) > 0 else Fraction(u)
+                    if not C.close(float(ha[nk]), float(want), 1e-9, 1e-12):
+                        chk.fail("the written SHADE memory cell is not the documented mean of the successful parameters",
+                                 {**dd, "memory": hk, "written": float(ha[nk]), "rule": float(want), "successes": int(len(S)), "total_improvement": float(sum(dff))},
+                                 {"optimizer": cn, "clause": "rule", "memory": hk})
                 if cn == "SHADE" and hk == "_H_F":
                     add({"op": "ad_update_f", "u": C.rat(u), "S": [C.rat(float(v)) for v in S]}, ("update_F:SHADE", {**dd, "u": u, "S": S.tolist()}, float(ha[nk])))
                 elif cn == "SHADE":
